@@ -37,14 +37,16 @@ MANIFEST_ENTRY = {
         "encoding is proved under C04. Trusted: Lean kernel, harness, driver, mp4walk, shims."),
     "technique": "Lean 4 proof (least-index characterisation, loop invariants, induction over the timeline loop) + model/implementation correspondence",
 }
-PROP_FILES = ["DashLive/Props/C02.lean", "DashLive/Props/GenTie.lean"]
-LEAN_TARGETS = ["DashLive.Props.C02", "DashLive.Props.GenTie"]
+PROP_FILES = ["DashLive/Props/C02.lean", "DashLive/Props/GenTie.lean", "DashLive/Props/GenTieTimeline.lean"]
+LEAN_TARGETS = ["DashLive.Props.C02", "DashLive.Props.GenTie", "DashLive.Props.GenTieTimeline"]
 
 
 def _gen_arith():
     """Gen/Arith.lean is translated from /repo's source text; Props/GenTie.lean ties it to the model"""
     import gen_arith
+    import gen_timeline
     gen_arith.main()
+    gen_timeline.main()
 
 GENERATORS = [_gen_arith]
 TRUSTED = [
